@@ -176,19 +176,7 @@ func findValueAtPath(inputValue cue.Value, cuePath CuePath) (outputValue cue.Val
 			thisValue = outputValue.LookupPath(cue.MakePath(selector.Optional()))
 			if err = thisValue.Err(); err != nil {
 				thisValue = outputValue.LookupPath(cue.MakePath(cue.AnyIndex))
-				if err = thisValue.Err(); err == nil {
-					// `[...T]`: the key names a field of the element type T
-					if thisValue.IncompleteKind() == cue.TopKind {
-						return thisValue, nil
-					}
-
-					elem := thisValue
-					selector = getSelectorForField(elem, cp)
-					thisValue = elem.LookupPath(cue.MakePath(selector))
-					if thisValue.Err() != nil {
-						thisValue = elem.LookupPath(cue.MakePath(selector.Optional()))
-					}
-				} else {
+				if err = thisValue.Err(); err != nil {
 					outputValueKind := outputValue.IncompleteKind()
 
 					if outputValueKind == cue.TopKind {
@@ -209,11 +197,19 @@ func findValueAtPath(inputValue cue.Value, cuePath CuePath) (outputValue cue.Val
 					if err = thisValue.Err(); err != nil {
 						return errFunc(cp, thisValue, err)
 					}
+				}
 
-					thisValue = thisValue.LookupPath(cue.MakePath(selector))
-					if err = outputValue.Err(); err != nil {
-						return errFunc(cp, thisValue, err)
-					}
+				// thisValue is the element type T of a list (`[...T]`, or the first element of `[T]`): the key names
+				// a field of T
+				if thisValue.IncompleteKind() == cue.TopKind {
+					return thisValue, nil
+				}
+
+				elem := thisValue
+				selector = getSelectorForField(elem, cp)
+				thisValue = elem.LookupPath(cue.MakePath(selector))
+				if thisValue.Err() != nil {
+					thisValue = elem.LookupPath(cue.MakePath(selector.Optional()))
 				}
 			}
 		}
